@@ -250,6 +250,8 @@ func CheckC10(c *Ctx) int {
 			Params: map[string]int{"keys": 10 + 13*(i%5), "rounds": c.Pick(120, 300), "reopenEvery": []int{0, 40, 0, 25}[i%4]}})
 	}
 	scs = append(scs, concurrentScenarios("c10c", c.Pick(6, 60), c.Seed)...)
+	// failed commits must not withhold pages either (a failed spill has already taken pages from the free list)
+	scs = append(scs, faultScenarios("c10f", c.Pick(5, 50), c.Seed+9, false)...)
 	o := RunScenarios(scs, ValidateSpec{Bolt: true}, filepath.Join(c.WorkDir, "runs"), 14, 5, c.ChildTimeout())
 	c.Absorb(o)
 	c.Cov["evaluations"] = o.Counters["commit"]
